@@ -2,7 +2,7 @@
    keys, integrate consumes both pair lists completely (its internal error is
    unreachable), ExecuteBatch acts per key as additions then deletions, and the
    store refines the map of lists over arbitrary operation histories. *)
-From DnsV Require Import Model.Batch Spec.MapOfLists Proofs.MultiValue Proofs.MapOfLists Proofs.BytesOrder.
+From DnsV Require Import Model.Batch Spec.MapOfLists Proofs.MultiValue Proofs.MapOfLists Proofs.KeyOrder.
 From Coq Require Import Permutation Sorted.
 Open Scope N_scope.
 
